@@ -211,6 +211,29 @@ func (e *Env) lookup(name string) (TVal, bool) {
 			}
 		}
 	}
+	// a package-level variable of any package that the function itself refers to (for instance
+	// an error value of a dependency it compares with), by its bare name when unambiguous
+	if e.x != nil && e.x.fn != nil {
+		var g *ssa.Global
+		amb := false
+		for _, b := range e.x.fn.Blocks {
+			for _, in := range b.Instrs {
+				for _, op := range in.Operands(nil) {
+					if gg, ok := (*op).(*ssa.Global); ok && gg.Name() == name {
+						if g != nil && g != gg {
+							amb = true
+						}
+						g = gg
+					}
+				}
+			}
+		}
+		if g != nil && !amb {
+			addr := e.x.globalAddr(g)
+			el := g.Type().(*types.Pointer).Elem()
+			return TVal{e.load(addr, el), el}, true
+		}
+	}
 	return TVal{}, false
 }
 
@@ -768,6 +791,23 @@ func (e *Env) evalCall(c *CCall) TVal {
 			}
 		}
 		e.errorf("deref(): not a pointer: %s", cexprString(c.Args[0]))
+		return mathInt("0")
+	case "pkgvar":
+		// pkgvar("import/path", "Name"): a package-level variable of any package of the program
+		if len(c.Args) == 2 {
+			ps, ok1 := c.Args[0].(*CStr)
+			ns, ok2 := c.Args[1].(*CStr)
+			if ok1 && ok2 {
+				if sp := e.x.eng.ssaPkg(ps.V); sp != nil {
+					if g, ok := sp.Members[ns.V].(*ssa.Global); ok {
+						addr := e.x.globalAddr(g)
+						el := g.Type().(*types.Pointer).Elem()
+						return TVal{e.load(addr, el), el}
+					}
+				}
+			}
+		}
+		e.errorf("pkgvar: no such package variable: %s", cexprString(c))
 		return mathInt("0")
 	case "asptr", "ptrtypeid":
 		// asptr(v, "T"): the address v seen as a *T (T a named type of the function's package);
